@@ -37,7 +37,7 @@ class Gen:
         rng = self.rng
         env = names_env
         names = sorted(env)
-        k = rng.choice(["ap", "ap", "rm", "get", "get", "len", "av"] + ([] if self.owned else ["dc", "at"]))
+        k = rng.choice(["ap", "ap", "rm", "rmv", "get", "get", "len", "av", "scan"] + ([] if self.owned else ["dc", "at"]))
         x = rng.choice(names)
         if k == "ap":
             v = rng.randint(-5, 9)
@@ -49,6 +49,16 @@ class Gen:
             v = rng.choice(env[x])
             l = list(env[x]); l.remove(v); env[x] = l
             return ("rm", x, v)
+        if k == "rmv":
+            if not env[x]:
+                return ("len", x)
+            i = rng.randrange(len(env[x]))
+            v = env[x][i]
+            l = list(env[x]); l.remove(v); env[x] = l
+            self.ntmp = getattr(self, "ntmp", 0) + 1
+            return ("rmv", x, i, v, f"t{self.ntmp}_{where[0]}")
+        if k == "scan":
+            return ("scan", x, len(env[x]))
         if k == "get":
             if not env[x]:
                 return ("len", x)
@@ -78,6 +88,12 @@ def stmt(op):
         return f"{op[1]} = {op[2]!r}"
     if k == "dmr":
         return f"{op[1]} = [i * {op[3]} for i in range({op[2]})]"
+    if k == "dms":
+        return f"{op[1]} = [i + {op[5]} for i in range({op[2]}, {op[3]}, {op[4]})]"
+    if k == "rmv":
+        return f"{op[4]} = {op[1]}[{op[2]}]\n{op[1]}.remove({op[4]})"
+    if k == "scan":
+        return f"for i in range(len({op[1]})):\n    mon.write({op[1]}[i])"
     if k in ("dc", "av"):
         return f"{op[1]} = {op[2]}"
     if k == "at":
@@ -98,6 +114,12 @@ def mtok(op):
         return f"dm {op[1]} {csv(op[2])}"
     if k == "dmr":
         return f"dm {op[1]} {csv([i * op[3] for i in range(op[2])])}"
+    if k == "dms":
+        return f"dm {op[1]} {csv([i + op[5] for i in range(op[2], op[3], op[4])])}"
+    if k == "rmv":
+        return f"get {op[1]} {op[2]};rm {op[1]} {op[3]}"
+    if k == "scan":
+        return ";".join([f"len {op[1]}"] + [f"get {op[1]} {i}" for i in range(op[2])])
     if k in ("dc", "av"):
         return f"{k} {op[1]} {op[2]}"
     if k == "at":
@@ -113,10 +135,17 @@ def gen_case(rng, owned):
     setup = []
     for i in range(rng.randint(1, 3)):
         name = "abc"[i]
-        if rng.random() < 0.25:
+        r = rng.random()
+        if r < 0.2:
             n, m = rng.randint(0, 5), rng.randint(1, 3)
             env[name] = [j * m for j in range(n)]
             setup.append(("dmr", name, n, m))
+        elif r < 0.45:
+            a0, st = rng.randint(-3, 6), rng.choice([1, 2, 3, 4, -1, -2, -3, -4])
+            b0 = a0 + rng.choice([0, 1, 2, 3, 5, 7, 10]) * (1 if st > 0 else -1)
+            off = rng.randint(0, 3)
+            env[name] = [j + off for j in range(a0, b0, st)]
+            setup.append(("dms", name, a0, b0, st, off))
         else:
             vals = g.lit()
             env[name] = vals
@@ -132,15 +161,17 @@ def gen_case(rng, owned):
             loop += [("ap", x, v), ("rm", x, v)] if owned or rng.random() < 0.7 else [("ap", x, v)]
         else:
             o = g.op("loop", dict(env))
-            if o[0] in ("ap", "rm", "av", "dc", "at") and owned:
+            if o[0] in ("ap", "rm", "rmv", "av", "dc", "at") and owned:
                 o = ("len", o[1])
             loop.append(o)
     return setup, loop
 
 
 def build(setup, loop, passes):
-    lines = HEAD + ["mon = SerialMonitor(9600)"] + [stmt(o) for o in setup] + ['mon.write("#")', "while True:"]
-    lines += ["    " + stmt(o) for o in loop] + ['    mon.write("#")']
+    lines = HEAD + ["mon = SerialMonitor(9600)"] + [ln for o in setup for ln in stmt(o).split("\n")] + ['mon.write("#")', "while True:"]
+    for o in loop:
+        lines += ["    " + ln for ln in stmt(o).split("\n")]
+    lines.append('    mon.write("#")')
     src = "\n".join(lines) + "\n"
     req = "heap|" + ";".join([mtok(o) for o in setup] + ["len a"] + ([mtok(o) for o in loop] + ["len a"]) * passes)
     return src, req
@@ -154,6 +185,9 @@ def py_run(setup, loop, passes):
         k = o[0]
         if k == "dm": env[o[1]] = list(o[2])
         elif k == "dmr": env[o[1]] = [i * o[3] for i in range(o[2])]
+        elif k == "dms": env[o[1]] = [i + o[5] for i in range(o[2], o[3], o[4])]
+        elif k == "rmv": env[o[1]].remove(env[o[1]][o[2]])
+        elif k == "scan": out.extend(env[o[1]])
         elif k in ("dc", "av"): env[o[1]] = env[o[2]]
         elif k == "at": env[o[1]] = list(o[2])
         elif k == "ap": env[o[1]].append(o[2])
@@ -211,7 +245,8 @@ def run(ctx: Ctx) -> int:
         merr = next((x.split(":")[1] for x in mm if x.startswith("memerr")), None)
         heaps = [int(l.split()[1]) for l in res.trace if l.startswith("heap ")]
         mlive, idx = [], 0
-        seq = [len(setup) + 1] + [len(loop) + 1] * passes
+        ntok = lambda ops: sum(len(mtok(o).split(";")) for o in ops)
+        seq = [ntok(setup) + 1] + [ntok(loop) + 1] * passes
         pos = 0
         for n in seq:
             pos += n
